@@ -252,7 +252,7 @@ def run(ctx):
          {"c": 1, "k": "ctx_open", "recv": True, "n": 2, "sequential": False, "body": B2}, {"c": 1, "k": "ctx_close"},
          {"c": 1, "k": "flush"}, {"c": 0, "k": "ctx_close"}, {"c": 0, "k": "flush"}, {"c": 0, "k": "new"},
          {"c": 0, "k": "flush"}, {"c": 0, "k": "close"}, {"c": 1, "k": "close"}], "qm.two-corpus")
-    for it in range(3000 if ctx.thorough else 160):
+    for it in range(1500 if ctx.thorough else 160):
         cfgs = []
         for _ in (0, 1):
             c = {"nv": rng.random() < 0.5, "transp": False, "maxq": rng.randint(2, 5)}
